@@ -224,6 +224,10 @@ impl World {
 
     pub fn avail_idx_mem(&self, q: u16) -> Option<u16> {
         let r = self.qreg(q)?;
+        if self.cfg.scribble {
+            // the device has overwritten the ring itself; it knows the index from the driver's store
+            return Some(self.dq.get(q as usize).and_then(|d| d.hook_idx).unwrap_or(0));
+        }
         self.hal.read_u16(r.driver + 2).ok()
     }
     pub fn avail_flags_mem(&self, q: u16) -> Option<u16> {
@@ -261,10 +265,10 @@ impl World {
         if self.dq.len() <= q as usize {
             return;
         }
-        let idx = match self.hal.read_u16(reg.driver + 2) {
+        let idx = match self.avail_idx_mem(q).ok_or(()).or_else(|_| self.hal.read_u16(reg.driver + 2).map_err(|_| ())) {
             Ok(v) => v,
-            Err(f) => {
-                self.violation("device-mem-fault", "avail.idx", format!("{} {:#x}", f.why, f.paddr));
+            Err(()) => {
+                self.violation("device-mem-fault", "avail.idx", "available index unreadable".into());
                 return;
             }
         };
@@ -422,6 +426,11 @@ impl World {
     pub fn on_store(&mut self, kind: u32, q: u16, index: u16) {
         self.ev(0x20 + kind as u8, q as u64, index as u64);
         self.store_events += 1;
+        if kind == 2 {
+            if let Some(d) = self.dq.get_mut(q as usize) {
+                d.hook_idx = Some(index);
+            }
+        }
         if (kind as usize) < 5 {
             self.store_kinds[kind as usize] += 1;
         }
@@ -784,6 +793,7 @@ impl World {
         let Some(reg) = self.qreg(q).cloned() else {
             return;
         };
+        let (id, len) = if self.cfg.hostile { self.hostile_elem(q, reg.size, id, len) } else { (id, len) };
         let old = self.dq[q as usize].used_idx;
         let slot = old as u32 % reg.size;
         let mut e = [0u8; 8];
@@ -803,6 +813,20 @@ impl World {
                 t.push(format!("[{}] device writes used[{}] = (id {id}, len {len}), used.idx = {new} on q{q}", self.tick, slot));
             }
         }
+        let new = if self.cfg.hostile && self.tape.choose(8) == 1 {
+            // the used index jumps: forwards over entries never written, or backwards
+            let j = match self.tape.choose(4) {
+                0 => new.wrapping_add(1 + self.tape.choose(reg.size as u64) as u16),
+                1 => new.wrapping_sub(1 + self.tape.choose(3) as u16),
+                2 => self.tape.choose(0x10000) as u16,
+                _ => new.wrapping_add(reg.size as u16),
+            };
+            let _ = self.hal.dev_write(reg.device + 2, &j.to_le_bytes());
+            *self.stats.faults.entry("used_idx_jump").or_insert(0) += 1;
+            j
+        } else {
+            new
+        };
         self.dq[q as usize].used_idx = new;
         self.dq[q as usize].completed += 1;
         if self.dq[q as usize].used_fifo.len() < 70_000 {
@@ -835,6 +859,97 @@ impl World {
             self.dq[q as usize].interrupts += 1;
         } else {
             self.dq[q as usize].interrupts_suppressed += 1;
+        }
+    }
+}
+
+impl World {
+    fn hostile_elem(&mut self, q: u16, size: u32, id: u32, len: u32) -> (u32, u32) {
+        let mut id2 = id;
+        let mut len2 = len;
+        match self.tape.choose(8) {
+            0 => {
+                id2 = self.tape.choose(size as u64) as u32;
+                *self.stats.faults.entry("used_id_never_issued").or_insert(0) += 1;
+            }
+            1 => {
+                let r = &self.dq[q as usize].reported_ids;
+                if !r.is_empty() {
+                    id2 = r[self.tape.choose(r.len() as u64) as usize];
+                    *self.stats.faults.entry("used_id_repeated").or_insert(0) += 1;
+                }
+            }
+            2 => {
+                id2 = match self.tape.choose(4) {
+                    0 => size,
+                    1 => size + self.tape.choose(1000) as u32,
+                    2 => 0x1_0000 + self.tape.choose(size as u64) as u32,
+                    _ => u32::MAX,
+                };
+                *self.stats.faults.entry("used_id_out_of_range").or_insert(0) += 1;
+            }
+            _ => {}
+        }
+        match self.tape.choose(8) {
+            0 => {
+                len2 = 0;
+                *self.stats.faults.entry("used_len_zero").or_insert(0) += 1;
+            }
+            1 => {
+                len2 = len.wrapping_add(1 + self.tape.choose(64) as u32);
+                *self.stats.faults.entry("used_len_long").or_insert(0) += 1;
+            }
+            2 => {
+                len2 = [0x1_0000u32, 0x7fff_ffff, u32::MAX, 0x1000, 0x1001][self.tape.choose(5) as usize];
+                *self.stats.faults.entry("used_len_huge").or_insert(0) += 1;
+            }
+            3 => {
+                len2 = self.tape.choose(len as u64 + 1) as u32;
+                *self.stats.faults.entry("used_len_short").or_insert(0) += 1;
+            }
+            _ => {}
+        }
+        if self.dq[q as usize].reported_ids.len() < 64 {
+            self.dq[q as usize].reported_ids.push(id);
+        }
+        (id2, len2)
+    }
+
+    /// The misbehaving device overwrites driver-owned queue areas it has already read.
+    pub fn scribble(&mut self) {
+        for q in 0..self.dq.len() as u16 {
+            let Some(reg) = self.qreg(q).cloned() else { continue };
+            if self.tape.choose(3) != 1 {
+                continue;
+            }
+            let n = 1 + self.tape.choose(4);
+            for _ in 0..n {
+                let mut junk = [0u8; 16];
+                for b in junk.iter_mut() {
+                    *b = self.tape.choose(256) as u8;
+                }
+                match self.tape.choose(5) {
+                    0 | 1 => {
+                        let i = self.tape.choose(reg.size as u64);
+                        self.hal.dev_scribble(reg.desc + 16 * i, &junk);
+                        *self.stats.faults.entry("scribble_desc").or_insert(0) += 1;
+                    }
+                    2 => {
+                        let i = self.tape.choose(reg.size as u64);
+                        self.hal.dev_scribble(reg.driver + 4 + 2 * i, &junk[..2]);
+                        *self.stats.faults.entry("scribble_avail").or_insert(0) += 1;
+                    }
+                    3 => {
+                        // flags and idx
+                        self.hal.dev_scribble(reg.driver, &junk[..4]);
+                        *self.stats.faults.entry("scribble_avail").or_insert(0) += 1;
+                    }
+                    _ => {
+                        self.hal.dev_scribble(reg.driver + 4 + 2 * reg.size as u64, &junk[..2]);
+                        *self.stats.faults.entry("scribble_used_event").or_insert(0) += 1;
+                    }
+                }
+            }
         }
     }
 }
